@@ -195,10 +195,22 @@ def judgeOne (k : Kind) (G : List Edge) (s t : Nat) : P Verdict := fun c =>
 
 def firstFail (cl : List (String × Bool)) : Option String := (cl.find? (fun c => !c.2)).map (·.1)
 
+/-- sink candidates, as in the harness: the endpoints, then the smallest label below the
+    largest endpoint that occurs in no edge (if any) and one label beyond it -/
+def sinks (G : List Edge) : List Nat :=
+  let V := sortNats (dedup (endpoints G))
+  match V.getLast? with
+  | none => V
+  | some mx =>
+    V ++ (match (List.range mx).find? (fun x => !V.contains x) with
+          | some g => [g]
+          | none => []) ++ [mx + 2]
+
 /-- ordered pairs of the domain, in the order the harness enumerates them -/
 def domainPairs (k : Kind) (G : List Edge) : List (Nat × Nat) :=
   let V := sortNats (dedup (endpoints G))
-  V.flatMap (fun s => (V.filter (fun t =>
+  let T := sinks G
+  V.flatMap (fun s => (T.filter (fun t =>
     match k with
     | .ec | .ecu => inDomainE G s t
     | .vc => inDomainV G s t
